@@ -112,6 +112,10 @@ R4base(S, v, out) ==
                        ELSE << [sch |-> TRUE] >>
              image == {NameOf(v.v[i][1]) : i \in 1..Len(v.v)}
          IN /\ IsContainer(out)
+            (* what builds the container: an object class builds an instance of itself, an *)
+            (* untyped schema an anonymous object                                          *)
+            /\ (Has(S, "type") /\ S.type = "object" => out.k = "model")
+            /\ (~Has(S, "type") => out.k = "anon")
             (* every input member present, under the right name, itself complete *)
             /\ \A i \in 1..Len(v.v) :
                   /\ OHas(out, NameOf(v.v[i][1]))
@@ -132,9 +136,9 @@ R4base(S, v, out) ==
                               \/ RawSame(d, out.v[j][2])
                               \/ R4(props[p][2], d, out.v[j][2])
     [] v.k = "num" ->
-         \/ out.k = "num" /\ JSame(v, out)
-         \/ /\ out.k = "num" /\ ~v.f /\ out.f /\ NumEq(v, out)      \* int -> equal float
-            /\ Has(S, "type") /\ S.type = "number"
+         IF Has(S, "type") /\ S.type = "number"
+         THEN out.k = "num" /\ out.f /\ NumEq(v, out)        \* a number schema builds the equal float
+         ELSE out.k = "num" /\ JSame(v, out)
     [] OTHER -> out.k = v.k /\ JSame(v, out)
 
 (* Which branch builds (the mechanism the property names: "composition returns the first    *)
